@@ -303,9 +303,10 @@ static void dump_state(tjinstance *t, char *out, size_t cap)
                ((d->coef != NULL) << 3) | ((d->post != NULL) << 4) | ((d->upsample != NULL) << 5) |
                ((d->cconvert != NULL) << 6) | ((d->entropy != NULL) << 7) | ((d->idct != NULL) << 8) |
                ((d->cquantize != NULL) << 9) | ((d->coef_bits != NULL) << 10);
-    n += snprintf(out + n, cap - n, "d:%d,%d,%d,%d,%d,%d,%d,%d,%d,%d,%d ", d->global_state, d->marker->saw_SOI, d->marker->saw_SOF,
+    n += snprintf(out + n, cap - n, "d:%d,%d,%d,%d,%d,%d,%d,%d,%d,%d,%d,%d,%d,%d ", d->global_state, d->marker->saw_SOI, d->marker->saw_SOF,
                   d->unread_marker, d->master->lossless, d->arith_code, d->progressive_mode, mask, d->progress != NULL,
-                  (t->tempICCBuf != NULL && t->tempICCSize != 0), ((my_master_ptr)d->master)->using_merged_upsample);
+                  (t->tempICCBuf != NULL && t->tempICCSize != 0), ((my_master_ptr)d->master)->using_merged_upsample,
+                  d->saw_JFIF_marker, d->saw_Adobe_marker, d->Adobe_transform);
   } else
     n += snprintf(out + n, cap - n, "d:- ");
   n += snprintf(out + n, cap - n, "p:");
